@@ -57,6 +57,20 @@ def strategy(draw):
                 inv_method=draw(gen.choice(INVARIANT)), inv_angle=draw(ANGLES), inherited_meta=draw(gen.chance(4)))
 
 
+BIG = {"quick": 24, "thorough": 192}
+
+
+@st.composite
+def strategy_big(draw):
+    """Deployment-scale recordings (2^15 .. 3*2^20 samples, i.e. up to ~9 h at 100 Hz): rotation algebra, the
+    polarised-motion scenario and preprocess only (the processing relations do not depend on the record length)."""
+    case = draw(strategy())
+    n = draw(gen.big_size(2 ** 15, 3 * 2 ** 20))
+    case["rec"]["n"] = n
+    case["big"] = True
+    return case
+
+
 def warmup():
     from . import c02
     c02.warmup()
@@ -150,6 +164,11 @@ def check_case(case):
             f"preprocess(orient_to_degrees_from_north={x}) reports orientation {pre[0].degrees_from_north}")
     if x % 360 == 0 and dp % 360 != 0:
         labels.append("preprocess-to-north")
+
+    if case.get("big"):
+        delta = (a - d) % 90.0
+        labels.append("big-2^%d" % int(math.log2(r["n"])))
+        return dict(labels=labels, nontrivial=min(delta, 90.0 - delta) >= 1.0)
 
     # ---- processing relations ---------------------------------------------
     spec = case["spec"]
